@@ -215,7 +215,10 @@ def rule_first_engine_call(ctx):
     ctx.floor("C07.f first engine calls", n, 6)
 
 
+from .c13 import rule_no_implicit_tx_calls  # noqa: E402  (a failed statement must leave an open transaction as it was)
+
 RULES = [
+    ("C07.g", rule_no_implicit_tx_calls, ("quick", "thorough")),
     ("C07.a", rule_table, ("quick", "thorough")),
     ("C07.b", rule_sqlstate, ("quick", "thorough")),
     ("C07.c", rule_after_accept, ("quick", "thorough")),
